@@ -67,6 +67,9 @@ THEOREMS = [
     "Lena.C03.splitFillAll_iff",
     "Lena.C03.nested_fill_compute",
     "Lena.C03.nested_fill_request",
+    "Lena.C03.tuple_fill_compute",
+    "Lena.C03.tuple_fill_request",
+    "Lena.C03.tuple_sequence",
 ]
 CASE_TIMEOUT = 10
 
@@ -499,7 +502,10 @@ def _rand_zip(rng, maxbr, maxn):
         kinds = ("fr",)
     else:
         kinds = ("src", "fc", "fr", "sq", "sum")
-    return {"op": "zip", "brs": [_rand_spec(rng, len(flow), kinds, pp=False) for _ in range(l)], "flow": flow}
+    case = {"op": "zip", "brs": [_rand_spec(rng, len(flow), kinds, pp=False) for _ in range(l)], "flow": flow}
+    if r < 0.85 and rng.random() < 0.25:
+        case["ctx"] = True
+    return case
 
 
 CAPS_LETTERS = "fcqrkib"
@@ -667,13 +673,36 @@ def _methods_impl(case):
     return res
 
 
+class _WithContext(object):
+    """wraps a fill/compute or fill/request harness element: every result `v` becomes the pair
+    `(v, {"common": 1, "branch": {"t<tag>": 1}})` (a value with context)"""
+
+    def __init__(self, el, tag):
+        self._el, self._tag = el, tag
+        self.fill = el.fill
+        for name in ("compute", "request"):
+            if hasattr(el, name):
+                setattr(self, name, lambda m=getattr(el, name): self._gen(m))
+
+    def _gen(self, method):
+        for v in method():
+            yield (v, {"common": 1, "branch": {"t%d" % self._tag: 1}})
+
+
+def _zip_objs(case, log):
+    specs = case["brs"]
+    if case.get("ctx"):
+        return [_WithContext(_mk_el(sp, i, log), i) for i, sp in enumerate(specs)]
+    return _build(specs, log)
+
+
 def _zip_impl(case):
     import lena.core
     import lena.flow
     specs, flow = case["brs"], case["flow"]
     log = []
     try:
-        z = lena.flow.Zip(_build(specs, log))
+        z = lena.flow.Zip(_zip_objs(case, log))
     except Exception as e:
         return {"e": exc_name(e), "phase": "init"}
     try:
@@ -795,6 +824,8 @@ def model_requests(case):
     if op == "methods":
         return [{"op": "methods", "brs": [_mspec(s) for s in case["brs"]], "blocks": case["blocks"]}]
     if op == "zip":
+        if case.get("ctx"):
+            return []  # values with context: outside the model (Zip._create_context is C07's algebra); oracle only
         return [{"op": "zip", "brs": [_mspec(s) for s in case["brs"]], "flow": case["flow"]}]
     if op == "init":
         return [{"op": "init", "objs": case["objs"], "bufsize": case["bufsize"], "is_list": case["is_list"]}]
@@ -1044,6 +1075,15 @@ def _oracle_zip(case, res):
     stopped = _ref_fill_all(els, flow)
     results = [list(el.compute() if common == "fill_compute" else el.request()) for el in els]
     exp = canon([list(t) for t in zip(*results)])
+    if case.get("ctx"):
+        # results with context: the data part of the i-th value is the tuple of the data parts
+        got = res["r"]
+        if res["stopped"] != stopped or len(got) != len(exp) or any(
+                not (isinstance(g, list) and len(g) == 2 and isinstance(g[1], dict) and g[0] == e)
+                for g, e in zip(got, exp)):
+            return (f"[zip-ith] {what} (results with context) filled with {flow} yields {got}; the data parts must "
+                    f"be the tuples of the i-th data {exp} (stopped={stopped})")
+        return None
     if res["stopped"] != stopped or res["r"] != exp:
         return f"[zip-ith] {what} filled with {flow} yields {res['r']} (stopped={res['stopped']}); the tuples of the i-th results are {exp} (stopped={stopped})"
     return None
@@ -1164,7 +1204,7 @@ def classify(case, res):
         return ["methods:" + ("fc" if res["fc"] else "fr" if res["fr"] else
                               "call" if isinstance(res["call"], list) else "none")]
     if op == "zip":
-        return ["zip:" + (res["e"] if "e" in res else "ok")]
+        return ["zip:" + (res["e"] if "e" in res else "ok") + (":with-context" if case.get("ctx") else "")]
     if op == "init":
         return ["init:" + (res["split"].get("e") or "ok"), "zipinit:" + (res["zip"].get("e") or "ok")]
     return [op]
